@@ -78,6 +78,7 @@ class Model:
             if True:
                 if True:
                     pass
+                self.conditionals_merged += alpha.merge_conditional_assignments(self.modules[name])
                 helpers.split_merged_tail(self.modules[name], loop_ifelse.get(name, set()))        # a tail shared by both branches of an if/else in a loop
                 alpha.split_tuple_assigns(self.modules[name])                         # one binding per statement
                 for _ in range(4):
